@@ -30,6 +30,17 @@ enum Step {
     Put(usize, usize), // key index, value length
     Del(usize),
     Flush,
+    /// let the periodic flusher / retirement pass run
+    Wait(u64),
+    /// judge the device as it stands (and its durable prefix) without calling flush
+    Probe,
+}
+
+/// workloads 6 and 7 run with several flush workers (keys spread over all shards, background ticks between the
+/// steps); their I/O calls cannot be numbered, so they only get class-wide plans
+#[allow(dead_code)]
+fn multi_worker(id: u64) -> bool {
+    id == 6 || id == 7
 }
 
 fn workload(id: u64) -> (u64, Vec<Step>, Vec<Step>) {
@@ -41,6 +52,40 @@ fn workload(id: u64) -> (u64, Vec<Step>, Vec<Step>) {
         b.extend((0..200).map(|i| Step::Put(i * 3 % 300, 90 + i % 5)));
         b.push(Step::Flush);
         return (1024, vec![], b);
+    }
+    if id == 6 {
+        // two flushed generations of every key, then replacements whose (multi-block) record writes fail while
+        // everything else works; the background passes run between the flush attempts
+        let n = 24;
+        let mut a: Vec<Step> = (0..n).map(|i| Step::Put(i, 300 + i)).collect();
+        a.push(Step::Flush);
+        a.extend((0..n).map(|i| Step::Put(i, 330 + i)));
+        a.push(Step::Flush);
+        let mut b: Vec<Step> = (0..n).map(|i| Step::Put(i, 5000 + i)).collect();
+        b.extend([Step::Flush, Step::Wait(350), Step::Probe, Step::Flush, Step::Wait(250), Step::Probe]);
+        return (512, a, b);
+    }
+    if id == 7 {
+        // mixed: small replacements succeed, big ones fail, durable keys are deleted meanwhile
+        let n = 48;
+        let mut a: Vec<Step> = (0..n).map(|i| Step::Put(i, 200 + i)).collect();
+        a.push(Step::Flush);
+        a.extend((0..n).filter(|i| i % 2 == 0).map(|i| Step::Put(i, 260 + i)));
+        a.push(Step::Flush);
+        let mut b: Vec<Step> = Vec::new();
+        for i in 0..n {
+            b.push(match i % 4 {
+                0 => Step::Put(i, 6000 + i),
+                1 => Step::Put(i, 100 + i),
+                2 => Step::Del(i),
+                _ => Step::Put(i, 9000 + i),
+            });
+            if i % 16 == 15 {
+                b.extend([Step::Wait(150), Step::Probe]);
+            }
+        }
+        b.extend([Step::Flush, Step::Wait(300), Step::Probe, Step::Put(0, 150), Step::Del(1), Step::Flush, Step::Wait(200), Step::Probe]);
+        return (1024, a, b);
     }
     match id % 5 {
         0 => (64, vec![], vec![Step::Put(0, 100), Step::Put(1, 5000), Step::Put(2, 60), Step::Flush, Step::Put(0, 4200), Step::Del(2), Step::Flush, Step::Put(3, 9000), Step::Flush]),
@@ -102,6 +147,9 @@ fn plan_from_json(v: &Value) -> FaultPlan {
             plan.enter.push((e[0].as_u64().unwrap() as u32, e[1].as_i64().unwrap() as i32));
         }
     }
+    if let Some(m) = v["min_len"].as_array() {
+        plan.data_min_len = Some((m[0].as_u64().unwrap() as usize, f(m[1].as_str().unwrap())));
+    }
     plan
 }
 
@@ -117,7 +165,11 @@ pub fn child(args: &Args) -> ! {
     let uring = args.get("io") == Some("uring");
     let mut cfg = Cfg::disk(16 + data_blocks);
     cfg.sync_io = !uring;
-    cfg.cpus = 2;
+    cfg.cpus = match wid {
+        6 => 16,
+        7 => 8,
+        _ => 2,
+    };
     cfg.cache = wid % 2 == 0;
     feoxdb::verif::set_thread_now_ns(NOW);
     let mut out = json!({"workload": wid, "tag": tag});
@@ -313,6 +365,27 @@ impl Ctx<'_> {
                     }
                 }
             }
+            Step::Wait(ms) => {
+                std::thread::sleep(std::time::Duration::from_millis(*ms));
+                return;
+            }
+            Step::Probe => {
+                self.snapshots.push(self.state.clone());
+                let snap_idx = self.snapshots.len() - 1;
+                let events = self.mon.events();
+                let cut = events.len();
+                let durable = crashimg::build(self.base, &events, &Recipe { cut, keep: vec![], tear: None });
+                let all = crashimg::volatile(&events, cut);
+                let asis = crashimg::build(self.base, &events, &Recipe { cut, keep: all, tear: None });
+                self.img_n += 1;
+                let p1 = format!("{}/{}.{}.durable.img", self.dir, self.tag, self.img_n);
+                let p2 = format!("{}/{}.{}.asis.img", self.dir, self.tag, self.img_n);
+                std::fs::write(&p1, durable).unwrap();
+                std::fs::write(&p2, asis).unwrap();
+                self.images.push(json!({"path": p1, "kind": "durable-at-probe-after-background-passes", "lo": self.last_ack_snapshot, "hi": snap_idx, "faulted": faulted}));
+                self.images.push(json!({"path": p2, "kind": "asis-at-probe-after-background-passes", "lo": self.last_ack_snapshot, "hi": snap_idx, "faulted": faulted}));
+                return;
+            }
             Step::Flush => {
                 let r = self.store.flush();
                 self.flushes.push(format!("{:?}", r.as_ref().map_err(err_name)));
@@ -463,7 +536,7 @@ fn judge_image(path: &str, v: &Value, snapshots: &[BTreeMap<usize, KState>], val
 pub fn run(args: &Args) -> Report {
     let mut report = Report::new(
         "fault",
-        "deterministic single-worker synchronous-I/O workloads (first write on a fresh device, updates of durable keys across size classes, delete/recreate with extent reuse, nearly-full device, repeated rewrites of one key); the I/O calls (every pwrite and fsync) of the faulted phase are numbered and fault plans are enumerated: every single call x {fail before, fail after the bytes/fsync reached the device}, seeded pairs, persistent failure from each call on, per-class bursts of 1-3 consecutive failures. Each plan runs in its own process; online: every get equals the model, writes are never refused; after every flush attempt the durable-prefix image and the file as it stands are recovered by the real store in a fresh process and each key must lie in [last acknowledged state, latest state] (exactly the model after an Ok flush); after faults stop flush must succeed (or, after an indeterminate failure, after reopening) and make everything durable. After an Ok flush the image is also built under the strict fsync model (a failed fsync may have dropped the dirty pages it covered: only writes issued again count). distinct non-trivial = plans whose fault was actually consumed, by (workload, call class, mode, flush outcome pattern)",
+        "multi-worker workloads 6-7 (8 / 4 flush workers, keys on every shard, two flushed generations, then replacements whose multi-block record writes - or all data / all marker writes - fail, deletes of durable keys meanwhile, background ticks between the attempts, the device judged as it stands at probes without a flush); deterministic single-worker synchronous-I/O workloads (first write on a fresh device, updates of durable keys across size classes, delete/recreate with extent reuse, nearly-full device, repeated rewrites of one key); the I/O calls (every pwrite and fsync) of the faulted phase are numbered and fault plans are enumerated: every single call x {fail before, fail after the bytes/fsync reached the device}, seeded pairs, persistent failure from each call on, per-class bursts of 1-3 consecutive failures. Each plan runs in its own process; online: every get equals the model, writes are never refused; after every flush attempt the durable-prefix image and the file as it stands are recovered by the real store in a fresh process and each key must lie in [last acknowledged state, latest state] (exactly the model after an Ok flush); after faults stop flush must succeed (or, after an indeterminate failure, after reopening) and make everything durable. After an Ok flush the image is also built under the strict fsync model (a failed fsync may have dropped the dirty pages it covered: only writes issued again count). distinct non-trivial = plans whose fault was actually consumed, by (workload, call class, mode, flush outcome pattern)",
     );
     let thorough = args.thorough();
     let uring = args.get("io") == Some("uring");
@@ -543,6 +616,28 @@ pub fn run(args: &Args) -> Report {
                     plans.push((wid, json!({"class": [class, start, count, if (start + count) % 2 == 0 { "before" } else { "after" }]})));
                 }
             }
+        }
+    }
+    // multi-worker workloads: class-wide plans only (their calls cannot be numbered); repeated, since the
+    // interleaving of workers and background ticks differs from run to run
+    for wid in [6u64, 7] {
+        match run_child(&exe, &dir, &format!("base{wid}"), wid, &json!({}), false) {
+            Ok(base) => {
+                if !base["problems"].as_array().map(|a| a.is_empty()).unwrap_or(true) {
+                    report.violation("fault:baseline", format!("fault-free run reports problems: {}", base["problems"]), json!({"engine": "fault", "workload": wid}));
+                }
+            }
+            Err(e) => {
+                report.inconclusive.push(format!("baseline child failed: {e}"));
+                continue;
+            }
+        }
+        for _rep in 0..(if thorough { 12 } else { 2 }) {
+            plans.push((wid, json!({"min_len": [4097, "before"]})));
+            plans.push((wid, json!({"min_len": [4097, "after"]})));
+            plans.push((wid, json!({"class": ["data_write", 0, 1_000_000, "before"]})));
+            plans.push((wid, json!({"class": ["marker_write", 0, 1_000_000, "before"]})));
+            plans.push((wid, json!({"class": ["fsync", 2, 3, "before"]})));
         }
     }
     let plans: Vec<(usize, (u64, Value))> = plans.into_iter().enumerate().filter(|(i, _)| *i as u64 % shards == shard).collect();
